@@ -1,9 +1,105 @@
 //go:build verif
 
 // Contracts for the govc verifier (/verif). Comment-only; compiled only with -tags verif.
+// soOK / tiOK (data invariants of the parser and of an item) are defined in /verif/specs/markup.ghost.
 
 package schemaorg
 
 //@ func NewParser(root, timingInfo)
 //@   requires root != nil && timingInfo != nil
 //@   ensures result != nil && fresh(result)
+//@   ensures [C01] #invariant soOK(result)
+
+//@ func (*Parser).parse(root)
+//@   requires root != nil && soOK(ps)
+//@   ensures [C01] #invariant soOK(ps)
+//@   loop 0 invariant soOK(ps)
+//@   loop 0 invariant forall(i, 0 <= i && i < len(allProp), allProp[i] != nil) && disjoint(allProp, ps.itemScopes)
+//@   loop 1 invariant soOK(ps)
+//@   loop 1 invariant forall(i, 0 <= i && i < len(allProp), allProp[i] != nil)
+
+//@ func (*Parser).parseElement(element, parentItem)
+//@   requires element != nil && soOK(ps)
+//@   assigns maps, schemaorg.Parser.itemScopes, elems(ref)
+//@   assigns_rows ps.itemScopes
+//@   fresh_assigns elems(string), schemaorg.BaseThingItem.*, builder
+//@   ensures [C01] #invariant soOK(ps)
+//@   ensures samerow(ps.itemScopes, old(ps.itemScopes)) || freshslice(ps.itemScopes)
+//@   loop 0 invariant soOK(ps)
+
+//@ func (*Parser).getItemScopeParent(element)
+//@   requires element != nil && ps != nil
+//@   assigns nothing
+
+//@ func (*Parser).createItemForElement(element)
+//@   requires element != nil
+
+//@ func (*Parser).isItemScope(element)
+//@   requires element != nil
+//@   assigns nothing
+
+//@ func (*Parser).getItemProp(element)
+//@   requires element != nil
+//@   assigns nothing
+//@   fresh_assigns elems(string)
+
+//@ func (*Parser).getItemType(element)
+//@   requires element != nil
+//@   assigns nothing
+
+//@ func (*Parser).getPropertyValue(element)
+//@   requires element != nil
+//@   assigns nothing
+
+//@ func (*Parser).getAuthorFromRelAttribute(element)
+//@   requires element != nil
+//@   assigns nothing
+
+//@ func (*Parser).getArticleItems()
+//@   requires soOK(ps)
+//@   ensures forall(i, 0 <= i && i < len(result), result[i] != nil)
+//@   loop 0 invariant forall(i, 0 <= i && i < len(articles), articles[i] != nil)
+
+//@ func (*Parser).getImageItems()
+//@   requires soOK(ps)
+//@   ensures forall(i, 0 <= i && i < len(result), result[i] != nil)
+//@   loop 0 invariant forall(i, 0 <= i && i < len(images), images[i] != nil)
+
+//@ func (*Parser).Title()
+//@   requires soOK(ps)
+
+//@ func (*Parser).Type()
+//@   requires soOK(ps)
+
+//@ func (*Parser).URL()
+//@   requires soOK(ps)
+
+//@ func (*Parser).Images()
+//@   requires soOK(ps)
+
+//@ func (*Parser).Description()
+//@   requires soOK(ps)
+
+//@ func (*Parser).Publisher()
+//@   requires soOK(ps)
+
+//@ func (*Parser).Copyright()
+//@   requires soOK(ps)
+
+//@ func (*Parser).Author()
+//@   requires soOK(ps)
+
+//@ func (*Parser).Article()
+//@   requires soOK(ps)
+
+//@ func (*BaseThingItem).addStringPropertyName(name)
+//@   requires tiOK(ti)
+//@   assigns maps
+
+//@ func (*BaseThingItem).addItemPropertyName(name)
+//@   requires tiOK(ti)
+//@   assigns maps
+
+//@ func (*ImageItem).getImage()
+//@   requires ii != nil
+//@   ensures result != nil
